@@ -16,6 +16,11 @@ from vlib import Undecided, parse_dot, parse_action, edge_cover, write_ndjson, r
 from tlagen import Fn, gen_mc
 
 
+# the layouts the flag table of the library documents (slog/cvt.go) + the default of SetTimeFormat()
+TS_EXPORTED = ["2006-01-02", "15:04:05Z07:00", "15:04:05.000000Z07:00", "2006-01-0215:04:05Z07:00",
+               "2006-01-02T15:04:05.000000Z07:00", "2006-01-02T15:04:05.999999999Z07:00"]
+
+
 def consts_for_tlc(c):
     """Python config -> constants of LoggCore."""
     return dict(
@@ -227,7 +232,8 @@ def run_core(ctx, c, invariants, properties, obs, rand_count, rand_depth, rand_l
                   gate_sevs=rc.get("gate_sevs", []), names=sorted(rc["names"]), bool_lists=rc["bool_lists"],
                   layouts=rc["layouts"], opt_lists=rc["opt_lists"], customs=rc.get("customs", []),
                   fail_sets=rc.get("fail_sets", [[]]), groups=rc.get("groups", []), ctx_vals=rc.get("ctx_vals", [[]]),
-                  call_args=rc.get("call_args", [[]]), flag_sets=rc.get("flag_sets", []), behaviours=behaviours)
+                  call_args=rc.get("call_args", [[]]), flag_sets=rc.get("flag_sets", []), behaviours=behaviours,
+                  ts_layouts=sorted(set(x for x in rc["layouts"] if x) | set(TS_EXPORTED)))
     sp = os.path.join(ctx.scratch, "script.json")
     with open(sp, "w") as fh:
         json.dump(script, fh)
